@@ -4,7 +4,7 @@ from engine.contracts import Contracts, LibHooks
 from engine.common import need
 from props import tables as T
 
-NS = {0x10: 'string', 0x20: 'boolean', 0x40: 'double', 0x80: 'integer', 0x100: 'bytes'}
+NS = {}          # next-state code of the decoder -> kind, filled from the code in run() (internal encoding)
 
 
 def run(rep, tier):
@@ -15,6 +15,8 @@ def run(rep, tier):
         enc = T.encoder_table(mod)
         dec = T.decoder_process_one(C, mod)
         pi = T.decoder_parse_integer(C, mod)
+        NS.clear()
+        NS.update(T.next_state_kinds(mod, dec)[0])
         # decoder view: byte -> (kind, payload width, accepted argument set)
         dview = {}
         for b, rows in dec.items():
